@@ -264,15 +264,16 @@ def run_case(case, acc):
             rec['call'] = call
             records.append(rec)
 
-    saved = lomond.frame.make_masking_key
+    from .. import env as _env
+    saved = _env.HOOKS['urandom4']
     mask = case.get('mask')
     if mask is not None:
-        lomond.frame.make_masking_key = lambda: mask
+        _env.HOOKS['urandom4'] = lambda: mask      # every 4-byte os.urandom() request = a masking key
     try:
         w = H.World(H.hs_server([], hs))
         run = H.drive(w, ws_kwargs=dict(compress=True) if z else None, connect_kwargs=dict(ping_rate=0), policy=policy)
     finally:
-        lomond.frame.make_masking_key = saved
+        _env.HOOKS['urandom4'] = saved
     if not records:
         acc.inconclusive.append('C03: connection did not reach Ready/Poll: %r' % (run.names,))
         return
